@@ -1,6 +1,6 @@
 (* Property C03 — a busy ensemble, path, engine or work directory is never shared.
    Statements only; proofs in proofs/RepexP.v and proofs/EnginesP.v. *)
-From Coq Require Import ZArith List Bool Lia.
+From Coq Require Import ZArith QArith List Bool Lia.
 Import ListNotations.
 From Inf Require Import model.RepexM proofs.RepexP proofs.EnginesP.
 Open Scope nat_scope.
@@ -75,7 +75,8 @@ Print Assumptions C03_engine_available.
 (* non-vacuity: the initial state of a 3-interface system satisfies the invariant and a run
    with a zero swap, a second job and their completions is accepted *)
 Definition ex_init : fstate :=
-  mkFS (mkR [[1;0;0;0]; [0;1;0;0]; [0;1;1;0]; [0;0;0;0]]%Z [0;1;2;0] [false;false;false;true] [] 3) [] [] 0.
+  mkFS (mkR [[1;0;0;0]; [0;1;0;0]; [0;1;1;0]; [0;0;0;0]]%Z [0;1;2;0] [false;false;false;true] [] 3)
+       [(0, [0;0;0;0]%Q); (1, [0;0;0;0]%Q); (2, [0;0;0;0]%Q)] [] 0.
 
 Example C03_example_init : InvF ex_init.
 Proof.
